@@ -18,6 +18,16 @@ R6  plumbing: minimize feeds the minimiser is_final(i) = state(i).is_final and d
     starts from one inactive splitter (block 1, class 1) per character and splits final/non-final first; refine picks
     splitters until none is active or all blocks are singletons; refine_block_with_splitter refines by delta(., s.char)
     into s.block and updates the splitters only on a real split.
+R7  the splitter store.  A SplitterList keeps its active items in positions [0, num_active) (the flag is the position).
+    add: for the element it appends and for every element it moves (slice::swap, intercepted) the flag afterwards
+    equals the flag before, and the new element's flag equals s.active (checked as entailments over the swap's
+    argument terms and a fresh position k, assuming num_active <= len); pick_active hands out position num_active-1
+    and lowers num_active by one; the iterator reports (char, class, index < num_active) of successive positions;
+    add_splitter grows the per-block table to b+1 and adds the item built from the splitter to list[b];
+    pick_splitter returns None iff no list has an active item and otherwise the picked pair with the active block's
+    id, inactive; has_active_splitter answers true only with active_block pointing at a list that has active items
+    and false only after every list was inspected.  take_list is TOTAL: a block none of whose states has a
+    predecessor never received a list, so the lookup must not index past the table (it did: see known_findings).
 """
 from .. import terms as T
 from .. import interp as X
@@ -41,6 +51,7 @@ def run(ctx):
     guarded(ctx, 'C04.R4', 'C04.R4/ordering', r4_ordering)
     guarded(ctx, 'C04.R5', 'C04.R5/partitions', r5_partitions)
     guarded(ctx, 'C04.R6', 'C04.R6/plumbing', r6_plumbing)
+    guarded(ctx, 'C04.R7', 'C04.R7/splitter-store', r7_splitter_store)
 
 
 def sym_writes(it, ip):
@@ -548,3 +559,277 @@ def r6_plumbing(ctx):
         ok = kinds == {'split', 'nosplit'}
         ctx.obligation(ok)
         (ctx.ok if ok else ctx.violation)('C04.R6', 'C04.R6/init_main_partition/both-outcomes-present', fn.path, fn.site(), None, cfg)
+
+
+SL = 'minimizer::SplitterList::'
+SS = 'minimizer::SplitterSet::'
+
+
+def iff(a, b):
+    return AND(OR(NOT(a), b), OR(NOT(b), a))
+
+
+def self_writes(ip, o):
+    obj = o.state.frames[0].cells[1].v
+    while isinstance(obj, X.Ref):
+        obj = ip.load(o.state, obj.cell, obj.path)
+    return dict((str(k), v) for k, v in ip.written(o.state, obj))
+
+
+def is_empty_splitter_list(t):
+    if t[0] == 'default' and 'SplitterList' in str(t[1]):
+        return True
+    if t[0] == 'mk' and 'SplitterList' in str(t[1]):
+        return t[3][0] == I(0) and t[3][1] in (('list', ()),)
+    return False
+
+
+def r7_splitter_store(ctx):
+    me, item = A(0), A(1)
+    for cfg in ('dev', 'rel'):
+        # ---- take_list is total
+        an = analyse(ctx, cfg, SS + 'take_list', [], _exact_casts=[('u32', 'usize')])
+        ip, fn = an.ip, an.fn
+        lst = T.fld(me, 'list')
+        b = T.var('a1', 'u32')
+        n = T.typed(('len', lst), 'usize')
+        for o in an.panics:
+            ctx.obligation(False)
+            ctx.violation('C04.R7', 'C04.R7/take_list/total:%s' % panic_role(o).split('@')[0], fn.path, fn.site(),
+                          {'leaf_constraints': pc_text(o), 'why': 'a block whose states have no predecessor on any character never received a splitter list; refining it indexes past the table'}, cfg)
+        kinds = set()
+        for o in an.rets:
+            t = ip.to_term(o.state, o.value)
+            if ip.entails(o.state, lt(b, n)):
+                ws = self_writes(ip, o)
+                ok = t == ('elem', lst, b) and len(ws) == 1 and all(is_empty_splitter_list(v if isinstance(v, tuple) else ip.to_term(o.state, v)) for v in ws.values())
+                kinds.add('present')
+                role = 'takes-the-list-of-block-b-leaving-it-empty'
+            elif ip.entails(o.state, le(n, b)):
+                ok = is_empty_splitter_list(t) and not self_writes(ip, o)
+                kinds.add('absent')
+                role = 'empty-list-for-a-block-without-entry'
+            else:
+                ok, role = False, 'case-split-on-b<len'
+            ctx.obligation(ok)
+            (ctx.ok if ok else ctx.violation)('C04.R7', 'C04.R7/take_list/%s' % role, fn.path, fn.site(), {'returned': T.show(t)[:160], 'leaf_constraints': pc_text(o)}, cfg)
+        ok = 'present' in kinds
+        ctx.obligation(ok)
+        (ctx.ok if ok else ctx.violation)('C04.R7', 'C04.R7/take_list/case-present', fn.path, fn.site(), {'cases': sorted(kinds)}, cfg)
+        # ---- SplitterList::add keeps every flag and gives the new element the requested one
+        an = analyse(ctx, cfg, SL + 'add', [], uninterpreted=lambda p: p.endswith('::swap'))
+        ip, fn = an.ip, an.fn
+        lst = T.fld(me, 'list')
+        L = T.typed(('len', lst), 'usize')
+        na = T.fld(me, 'num_active', 'usize')
+        act = T.fld(item, 'active', 'bool')
+        pushed = ('list', (('slice', lst, I(0), L), ('one', ('mk', 'minimizer::CharClassPair', 'CharClassPair', (T.fld(item, 'char', 'u32'), T.fld(item, 'class', 'u32'))))))
+        ctx.assumptions.add('SplitterList::add: representation invariant num_active <= list.len() on entry (established by Default and preserved, checked as part of the rule)')
+        kinds = set()
+        for o in an.outs:
+            if o.kind != 'ret':
+                dead = ip.unsat(tuple(o.state.pc) + (le(na, L),))
+                role = panic_role(o).split('@')[0]
+                okp = dead   # num_active + 1 cannot overflow below the isize::MAX length bound
+                ctx.obligation(okp)
+                (ctx.ok if okp else ctx.violation)('C04.R7', 'C04.R7/SplitterList::add/panic:%s' % role, fn.path, fn.site(), {'leaf_constraints': pc_text(o)}, cfg)
+                continue
+            st = o.state
+            st.assume(le(na, L))
+            ws = self_writes(ip, o)
+            na2 = ws.get('num_active', na)
+            swaps = [c for c in st.calls if c[0].endswith('::swap')]
+            okshape = len(swaps) <= 1 and 'list' in ws
+            if okshape and swaps:
+                okshape = swaps[0][1][0] == pushed
+            elif okshape:
+                lt_ = ws['list'] if isinstance(ws['list'], tuple) else ip.to_term(st, ws['list'])
+                okshape = lt_ == pushed
+            ctx.obligation(okshape)
+            (ctx.ok if okshape else ctx.violation)('C04.R7', 'C04.R7/SplitterList::add/appends-the-pair-then-at-most-one-swap', fn.path, fn.site(), {'calls': [T.show(calllog.call_term(c))[:200] for c in st.calls], 'list': T.show(ws.get('list', ('undef',)))[:200]}, cfg)
+            if not okshape:
+                continue
+            k = T.var('k#pos', 'usize')
+            goals = [('num_active-stays-within-the-list', le(na2, T.mk_add(L, I(1))))]
+            if swaps:
+                a, b_ = swaps[0][1][1], swaps[0][1][2]
+                P = ('ite', eq(a, L), b_, ('ite', eq(b_, L), a, L))
+                goals.append(('new-element-flag-is-s.active', all_(OR(NOT(eq(a, L)), iff(lt(b_, na2), act)), OR(NOT(eq(b_, L)), iff(lt(a, na2), act)),
+                                                                  any_(eq(a, L), eq(b_, L), iff(lt(L, na2), act)))))
+                goals.append(('moved-elements-keep-their-flag', all_(OR(eq(a, L), iff(lt(b_, na2), lt(a, na))), OR(eq(b_, L), iff(lt(a, na2), lt(b_, na))))))
+                goals.append(('other-elements-keep-their-flag', OR(NOT(all_(le(I(0), k), lt(k, L), ne(k, a), ne(k, b_))), iff(lt(k, na2), lt(k, na)))))
+                kinds.add('swap')
+            else:
+                goals.append(('new-element-flag-is-s.active', iff(lt(L, na2), act)))
+                goals.append(('other-elements-keep-their-flag', OR(NOT(all_(le(I(0), k), lt(k, L))), iff(lt(k, na2), lt(k, na)))))
+                kinds.add('noswap')
+            for role, g in goals:
+                okg = ip.entails(st, g)
+                ctx.obligation(okg)
+                (ctx.ok if okg else ctx.violation)('C04.R7', 'C04.R7/SplitterList::add/%s' % role, fn.path, fn.site(), {'leaf_constraints': pc_text(o), 'not_entailed': T.show(g)[:240]}, cfg)
+        ok = len(kinds) >= 1
+        ctx.obligation(ok)
+        (ctx.ok if ok else ctx.violation)('C04.R7', 'C04.R7/SplitterList::add/cases-present', fn.path, fn.site(), {'cases': sorted(kinds)}, cfg)
+        # ---- pick_active
+        an = analyse(ctx, cfg, SL + 'pick_active', [lt(I(0), na), le(na, L)])
+        ip, fn = an.ip, an.fn
+        nret = 0
+        for o in an.outs:
+            if o.kind != 'ret':
+                dead = ip.unsat(tuple(o.state.pc))
+                ctx.obligation(dead)
+                (ctx.ok if dead else ctx.violation)('C04.R7', 'C04.R7/pick_active/panic:%s' % panic_role(o).split('@')[0], fn.path, fn.site(), {'leaf_constraints': pc_text(o)}, cfg)
+                continue
+            nret += 1
+            ws = self_writes(ip, o)
+            t = ip.to_term(o.state, o.value)
+            na2 = ws.get('num_active')
+            ok = set(ws) == {'num_active'} and ip.entails(o.state, eq(na2, T.mk_sub(na, I(1)))) and t[0] == 'elem' and t[1] == lst and ip.entails(o.state, eq(t[2], na2))
+            ctx.obligation(ok)
+            (ctx.ok if ok else ctx.violation)('C04.R7', 'C04.R7/pick_active/deactivates-exactly-the-item-it-returns', fn.path, fn.site(), {'returned': T.show(t)[:120], 'writes': {k_: T.show(v)[:80] for k_, v in ws.items()}}, cfg)
+        ctx.obligation(nret >= 1)
+        (ctx.ok if nret >= 1 else ctx.violation)('C04.R7', 'C04.R7/pick_active/returns', fn.path, fn.site(), None, cfg)
+        # ---- iterator
+        itp = "<minimizer::SplitterListIterator<'a> as std::iter::Iterator>::next"
+        an = analyse(ctx, cfg, itp, [])
+        ip, fn = an.ip, an.fn
+        sl = T.fld(me, 'list')
+        ll = T.fld(sl, 'list')
+        idx = T.fld(me, 'index', 'usize')
+        kinds = set()
+        for o in an.outs:
+            if o.kind != 'ret':
+                dead = ip.unsat(tuple(o.state.pc))
+                ctx.obligation(dead)
+                (ctx.ok if dead else ctx.violation)('C04.R7', 'C04.R7/SplitterListIterator::next/panic:%s' % panic_role(o).split('@')[0], fn.path, fn.site(), {'leaf_constraints': pc_text(o)}, cfg)
+                continue
+            v = variant_of(ip, o.state, o.value)
+            ws = self_writes(ip, o)
+            inb = lt(idx, T.typed(('len', ll), 'usize'))
+            if v is not None and v[0] == 'Some':
+                t = ip.to_term(o.state, v[1][0])
+                e = ('elem', ll, idx)
+                want = ('mk', 'minimizer::SplitterItem', 'SplitterItem', (T.fld(e, 'char', 'u32'), T.fld(e, 'class', 'u32'), lt(idx, T.fld(sl, 'num_active', 'usize'))))
+                ok = ip.entails(o.state, inb) and t == want and set(ws) == {'index'} and ip.entails(o.state, eq(ws['index'], T.mk_add(idx, I(1))))
+                kinds.add('some')
+            elif v is not None and v[0] == 'None':
+                ok = ip.entails(o.state, NOT(inb)) and not ws
+                t = ('none',)
+                kinds.add('none')
+            else:
+                ok, t = False, ('undef',)
+            ctx.obligation(ok)
+            (ctx.ok if ok else ctx.violation)('C04.R7', 'C04.R7/SplitterListIterator::next/item-is-(char,class,index<num_active)-of-successive-positions', fn.path, fn.site(), {'returned': T.show(t)[:240], 'writes': {k_: T.show(v_)[:80] for k_, v_ in ws.items()}}, cfg)
+        ok = kinds == {'some', 'none'}
+        ctx.obligation(ok)
+        (ctx.ok if ok else ctx.violation)('C04.R7', 'C04.R7/SplitterListIterator::next/both-outcomes-present', fn.path, fn.site(), None, cfg)
+        # the iterator starts at position 0 of the list it is given
+        an = analyse(ctx, cfg, SL + 'iter', [])
+        for o in an.rets:
+            t = an.ip.to_term(o.state, o.value)
+            ok = t[0] == 'mk' and t[3][0] == me and t[3][1] == I(0)
+            ctx.obligation(ok)
+            (ctx.ok if ok else ctx.violation)('C04.R7', 'C04.R7/SplitterList::iter/starts-at-0-of-self', an.fn.path, an.fn.site(), {'returned': T.show(t)[:120]}, cfg)
+        # ---- add_splitter
+        an = analyse(ctx, cfg, SS + 'add_splitter', [], uninterpreted=lambda p: p in (SL + 'add',) or p.endswith('::resize_with'), _exact_casts=[('u32', 'usize')])
+        ip, fn = an.ip, an.fn
+        spl = A(1)
+        blk = T.fld(spl, 'block', 'u32')
+        want_item = ('mk', 'minimizer::SplitterItem', 'SplitterItem', (T.fld(spl, 'char', 'u32'), T.fld(spl, 'class', 'u32'), T.fld(spl, 'active', 'bool')))
+        kinds = set()
+        for o in an.outs:
+            adds = [c for c in o.state.calls if c[0] == SL + 'add']
+            rs = [c for c in o.state.calls if c[0].endswith('::resize_with')]
+            if o.kind != 'ret':
+                # only index failure after a resize that is too short would land here; the resized length is opaque, so
+                # require the resize to ask for b+1 and accept the (std-guaranteed) in-range index
+                ok = len(rs) == 1 and ip.entails(o.state, eq(rs[0][1][1], T.mk_add(blk, I(1)))) and panic_role(o).startswith('index')
+                ctx.obligation(ok)
+                (ctx.ok if ok else ctx.violation)('C04.R7', 'C04.R7/add_splitter/panic:%s' % panic_role(o).split('@')[0], fn.path, fn.site(), {'leaf_constraints': pc_text(o)}, cfg)
+                continue
+            lst = T.fld(me, 'list')
+            small = le(T.typed(('len', lst), 'usize'), blk)
+            ok = len(adds) == 1
+            if ok:
+                tgt, it_ = adds[0][1][0], adds[0][1][1]
+                ok = it_ == want_item and tgt[0] == 'elem' and tgt[2] == blk
+                if ip.entails(o.state, small):
+                    ok = ok and len(rs) == 1 and ip.entails(o.state, eq(rs[0][1][1], T.mk_add(blk, I(1))))
+                    kinds.add('grow')
+                elif ip.entails(o.state, NOT(small)):
+                    ok = ok and not rs and tgt[1] == lst
+                    kinds.add('present')
+                else:
+                    ok = False
+            ctx.obligation(ok)
+            (ctx.ok if ok else ctx.violation)('C04.R7', 'C04.R7/add_splitter/adds-item-of-the-splitter-to-list[block]-growing-to-block+1', fn.path, fn.site(), {'calls': [T.show(calllog.call_term(c))[:200] for c in o.state.calls]}, cfg)
+        ok = kinds == {'grow', 'present'}
+        ctx.obligation(ok)
+        (ctx.ok if ok else ctx.violation)('C04.R7', 'C04.R7/add_splitter/both-cases-present', fn.path, fn.site(), {'cases': sorted(kinds)}, cfg)
+        # ---- pick_splitter / has_active_splitter
+        log = calllog.run(ctx, cfg, SS + 'pick_splitter', exact_casts=[('usize', 'u32')])
+        ip, fn = log.ip, log.fn
+        kinds = set()
+        for o in log.outs:
+            if o.kind != 'ret':
+                continue   # index failure depends on has_active_splitter's answer (checked below)
+            v = variant_of(ip, o.state, o.value)
+            has = [c for c in o.state.calls if c[0] == SS + 'has_active_splitter']
+            pk = [c for c in o.state.calls if c[0] == SL + 'pick_active']
+            ok = len(has) == 1 and has[0][1] == (me,)
+            if ok:
+                h = T.typed(calllog.call_term(has[0]), 'bool')
+                if v is not None and v[0] == 'None':
+                    ok = ip.entails(o.state, NOT(h)) and not pk
+                    kinds.add('none')
+                elif v is not None and v[0] == 'Some':
+                    t = ip.to_term(o.state, v[1][0])
+                    ok = ip.entails(o.state, h) and len(pk) == 1 and t[0] == 'mk'
+                    if ok:
+                        tgt = pk[0][1][0]
+                        pr = calllog.call_term(pk[0])
+                        ok = (tgt[0] == 'elem' and tgt[2][0] == 'fld' and tgt[2][2] == 'active_block' and tgt[1][0] == 'fld' and tgt[1][2] == 'list' and tgt[1][1] == tgt[2][1]
+                              and ip.entails(o.state, eq(t[3][0], tgt[2])) and t[3][1] == T.fld(pr, 'char', 'u32') and t[3][2] == T.fld(pr, 'class', 'u32') and t[3][3] == FALSE)
+                    kinds.add('some')
+                else:
+                    ok = False
+            ctx.obligation(ok)
+            (ctx.ok if ok else ctx.violation)('C04.R7', 'C04.R7/pick_splitter/picked-pair-of-the-active-block-returned-inactive', fn.path, fn.site(), {'returned': T.show(ip.to_term(o.state, o.value))[:300]}, cfg)
+        ok = kinds == {'some', 'none'}
+        ctx.obligation(ok)
+        (ctx.ok if ok else ctx.violation)('C04.R7', 'C04.R7/pick_splitter/both-outcomes-present', fn.path, fn.site(), None, cfg)
+        log = calllog.run(ctx, cfg, SS + 'has_active_splitter')
+        ip, fn = log.ip, log.fn
+        lst = T.fld(me, 'list')
+        ab = T.fld(me, 'active_block', 'usize')
+
+        def hai(ix):
+            return T.typed(('call', SL + 'has_active_items', (('elem', lst, ix),)), 'bool')
+        okit = len(log.iterations) >= 1
+        for it in log.iterations:
+            pos = [hv for hv, ev in it.mapping if T.TYPES.get(hv) == 'usize']
+            okit = okit and len(pos) == 1 and ip.entails(it.state, NOT(hai(pos[0]))) and ip.entails(it.state, eq(it.cur.get(pos[0], pos[0]), T.mk_add(pos[0], I(1))))
+        ctx.obligation(okit)
+        (ctx.ok if okit else ctx.violation)('C04.R7', 'C04.R7/has_active_splitter/scan-continues-only-past-lists-without-active-items', fn.path, fn.site(), None, cfg)
+        kinds = set()
+        for o in log.outs:
+            if o.kind != 'ret':
+                continue
+            ws = self_writes(ip, o)
+            ab2 = ws.get('active_block', ab)
+            if o.value == TRUE:
+                ok = set(ws) <= {'active_block'} and ip.entails(o.state, hai(ab2)) and ip.entails(o.state, lt(ab2, T.typed(('len', lst), 'usize')))
+                kinds.add('true')
+                role = 'true-only-with-active_block-at-a-list-with-active-items'
+            elif o.value == FALSE:
+                poss = [t for f in o.state.pc for t in T.subterms(f) if t[0] == 'var' and 'iter.pos' in t[1]]
+                ok = not ws and bool(poss) and ip.entails(o.state, le(T.typed(('len', lst), 'usize'), poss[0]))
+                kinds.add('false')
+                role = 'false-only-after-the-whole-table-was-scanned'
+            else:
+                ok, role = False, 'boolean-result'
+            ctx.obligation(ok)
+            (ctx.ok if ok else ctx.violation)('C04.R7', 'C04.R7/has_active_splitter/%s' % role, fn.path, fn.site(), {'leaf_constraints': pc_text(o), 'writes': {k_: T.show(v_)[:80] for k_, v_ in ws.items()}}, cfg)
+        ok = kinds == {'true', 'false'}
+        ctx.obligation(ok)
+        (ctx.ok if ok else ctx.violation)('C04.R7', 'C04.R7/has_active_splitter/both-outcomes-present', fn.path, fn.site(), None, cfg)
